@@ -152,3 +152,92 @@ def c04_corpus(seed, tier):
             left -= n
         S.case("XorShiftRng random %d" % r, ops, weight=K)
     return S
+
+
+# ---------------------------------------------------------------- C05
+CLASS_KINDS = {
+    "Via_w32": ["Xoroshiro64Star", "Xoroshiro64StarStar", "Xoshiro128Plus", "Xoshiro128PlusPlus", "Xoshiro128StarStar", "XorShiftRng"],
+    "Via_hi": ["Xoroshiro128Plus", "Xoshiro256Plus", "Xoshiro256PlusPlus", "Xoshiro256StarStar", "Xoshiro512Plus", "Xoshiro512PlusPlus", "Xoshiro512StarStar"],
+    "Via_lo": ["Xoroshiro128PlusPlus", "Xoroshiro128StarStar"],
+    "Via_sm": ["SplitMix64"],
+    "Via_half": ["JitterRng"],
+    "Hc128": ["Hc128Rng"],
+    "Isaac": ["IsaacRng"],
+    "Isaac64": ["Isaac64Rng"],
+}
+
+
+def words_needed(ops, wb):
+    """upper bound on native words consumed by a list of (op, n) — no semantics, just a bound"""
+    t = 2
+    for op, n in ops:
+        if op == "next_u32":
+            t += 1
+        elif op == "next_u64":
+            t += 2
+        else:
+            t += (n + wb - 1) // wb + 1
+    return t
+
+
+def timer_script(rng, n, style="jittery"):
+    """n u64 readings of a plausible (non-stuck) timer"""
+    t = rng.getrandbits(40) + 1
+    out = []
+    for _ in range(n):
+        if style == "jittery":
+            t += rng.choice([37, 41, 43, 53, 59, 61, 67, 71, 73, 79, 83, 89, 97, 101, 211, 307, 1009]) + rng.randrange(0, 900)
+        out.append(t & ((1 << 64) - 1))
+    return out
+
+
+def api_case_ops(kind, walk, rng, with_twin=True, rounds=None):
+    """ops of one case: twin (native calls only), then the instance under test driven by `walk`"""
+    wb = WORDBYTES[kind]
+    N = words_needed(walk, wb)
+    ops = []
+    nat = native_op(kind)
+    if kind == "JitterRng":
+        r = rounds or rng.choice([1, 2, 3])
+        reads = (1 + 3 * (1 + r) + 30) * N + 50
+        sc = timer_script(rng, reads)
+        ops.append({"op": "timer", "t": 1, "readings": [u64(x) for x in sc], "cont": [u64(97), u64(1013), u64(331), u64(1999), u64(53)]})
+        ops.append({"op": "jit_new", "g": 2, "t": 1})
+        ops.append({"op": "set_rounds", "g": 2, "r": r})
+        ops.append({"op": "next_u64", "g": 2, "n": N, "role": "twin", "of": 1})
+        ops.append({"op": "jit_new", "g": 1, "t": 1})
+        ops.append({"op": "set_rounds", "g": 1, "r": r})
+    else:
+        sd = [rng.getrandbits(8) for _ in range(SEEDLEN[kind])]
+        ops.append({"op": "from_seed", "g": 2, "kind": kind, "seed": sd})
+        ops.append({"op": nat, "g": 2, "n": N, "role": "twin", "of": 1})
+        if kind == "SplitMix64":
+            ops.append({"op": "from_seed", "g": 3, "kind": kind, "seed": sd})
+            ops.append({"op": "next_u32", "g": 3, "n": N, "role": "twin32", "of": 1})
+        ops.append({"op": "from_seed", "g": 1, "kind": kind, "seed": sd})
+    for op, n in walk:
+        if op == "fill_bytes":
+            ops.append({"op": op, "g": 1, "n": n})
+        else:
+            ops.append({"op": op, "g": 1})
+    return ops
+
+
+def random_walk(rng, length, wb, blockbytes=None):
+    walk = []
+    for _ in range(length):
+        r = rng.random()
+        if r < 0.3:
+            walk.append(("next_u32", 0))
+        elif r < 0.55:
+            walk.append(("next_u64", 0))
+        else:
+            q = rng.random()
+            if q < 0.7:
+                n = rng.randrange(0, 26)
+            elif q < 0.9 or not blockbytes:
+                n = rng.randrange(26, 200)
+            else:
+                n = blockbytes + rng.randrange(-9, 10)
+            walk.append(("fill_bytes", n))
+    return walk
